@@ -371,6 +371,9 @@ func (s *Writer) prepareIntroducePersist(persists chan *persistIntroduction, new
 
 	select {
 	case <-s.closeCh:
+		// the introducer has taken the introduction and is working on
+		// newSegments, wait for it before the deferred cleanup looks at them
+		<-persist.applied
 		return segment.ErrClosed
 	case <-persist.applied:
 	}
